@@ -34,10 +34,13 @@ DEPTH_RE = re.compile(r'The depth of the complete state graph search is (\d+)')
 REJECT_RE = re.compile(r'<<"REJECT", (.*)>>\s*$')
 
 
-def run_tlc(module_path, cfg_path, workers=1, env=None, timeout=3600, extra=(), xmx='3g', check_deadlock=False):
+def run_tlc(module_path, cfg_path, workers=1, env=None, timeout=3600, extra=(), xmx='3g', check_deadlock=False,
+            xss=None):
     """Run TLC, return dict(out=str, rc=int, states, distinct, depth, wall)"""
     meta = tempfile.mkdtemp(prefix='tlcmeta_')
-    cmd, e = _java(env, xmx=xmx)
+    # deep recursion only matters for single-worker trace validation; many worker threads with huge
+    # stacks exhaust memory
+    cmd, e = _java(env, xmx=xmx, xss=xss or ('512m' if workers == 1 else '64m'))
     cmd += ['-workers', str(workers), '-metadir', meta, '-noGenerateSpecTE', '-config', cfg_path]
     if not check_deadlock:
         cmd += ['-deadlock']
@@ -96,25 +99,38 @@ def validate_trace(trace_file, n_events, module='Trace', timeout=3600, xmx='3g')
 COVER_RE = re.compile(r'^<(\w+) line (\d+), col \d+ to line \d+, col \d+ of module (\w+)>: (\d+):(\d+)', re.M)
 
 
-def model_check(module, cfg=None, workers=16, timeout=3600, extra=(), coverage=True, xmx='8g', env=None):
-    """Exhaustive TLC run of spec/mc/<module>.tla.  Returns stats dict with
-    'ok', 'violated' (invariant/property name or None), 'actions' coverage."""
+def model_check(module, cfg=None, workers=16, timeout=3600, extra=(), count_actions=False, xmx='8g', env=None):
+    """Exhaustive TLC run of spec/mc/<module>.tla.  Returns stats dict with 'ok', 'violated'
+    (invariant/property name or None) and, with count_actions, the number of transitions per
+    named action (from TLC's labelled state-graph dump; TLC's own -coverage runs out of memory
+    on the mutually recursive codec operators)."""
     mod = os.path.join(SPEC, 'mc', module + '.tla')
     cfgp = os.path.join(SPEC, 'mc', (cfg or module) + '.cfg')
     ex = list(extra)
-    if coverage:
-        ex = ['-coverage', '1'] + ex
-    res = run_tlc(mod, cfgp, workers=workers, timeout=timeout, extra=ex, xmx=xmx, env=env)
+    dump = None
+    if count_actions:
+        dump = tempfile.mkdtemp(prefix='tlcdump_')
+        ex = ['-dump', 'dot,actionlabels', os.path.join(dump, 'g')] + ex
+    try:
+        res = run_tlc(mod, cfgp, workers=workers, timeout=timeout, extra=ex, xmx=xmx, env=env)
+        acts = {}
+        if dump and os.path.exists(os.path.join(dump, 'g.dot')):
+            with open(os.path.join(dump, 'g.dot')) as f:
+                for line in f:
+                    m = re.search(r'-> -?\d+ \[label="(\w+)', line)
+                    if m:
+                        acts[m.group(1)] = acts.get(m.group(1), 0) + 1
+        res['actions'] = acts
+    finally:
+        if dump:
+            shutil.rmtree(dump, ignore_errors=True)
     out = res['out']
     res['ok'] = 'Model checking completed. No error has been found.' in out
     m = re.search(r'Error: Invariant (\w+) is violated', out) or \
         re.search(r'Error: Action property (\w+) is violated', out) or \
-        re.search(r'Error: Temporal properties were violated', out)
+        re.search(r'Error: Temporal properties were violated', out) or \
+        re.search(r'Error: Assumption (line \d+)', out)
     res['violated'] = (m.group(1) if m and m.groups() else ('temporal' if m else None))
-    acts = {}
-    for m in COVER_RE.finditer(out):
-        acts[m.group(1)] = (int(m.group(4)), int(m.group(5)))
-    res['actions'] = acts
     return res
 
 
